@@ -394,6 +394,13 @@ func (eval Evaluator) Sub(op0 *rlwe.Ciphertext, op1 rlwe.Operand, opOut *rlwe.Ci
 
 		if op0.Scale.Cmp(op1.El().Scale) == 0 {
 			eval.evaluateInPlace(level, op0, op1.El(), opOut, ringQ.AtLevel(level).Sub)
+
+			// Negates the components that only the second operand has (they were copied as they are)
+			if op0.Degree() < op1.Degree() {
+				for i := op0.Degree() + 1; i < op1.Degree()+1; i++ {
+					ringQ.AtLevel(level).Neg(opOut.Value[i], opOut.Value[i])
+				}
+			}
 		} else {
 			eval.matchScaleThenEvaluateInPlace(level, op0, op1.El(), opOut, ringQ.AtLevel(level).MulScalarThenSub)
 		}
